@@ -13,7 +13,7 @@ from __future__ import annotations
 import itertools
 from typing import Any
 
-from harness.common import Check
+from harness.common import Check, err_enum
 from harness.decode_common import cps, enum, spec_positions
 
 ALPHABET = list("S+-DBCR$,/*V.AX9Z0P()3")
@@ -51,6 +51,14 @@ def gen_numeric(s: str) -> str:
     return str(t.get("conversion") == "decimal").lower()
 
 
+def gen_numeric_ext(s: str) -> str:
+    import stingray.cobol_parser as CP
+
+    node = CP.DDE("05", "A", clauses={"name": "A", "picture": s})
+    t = CP.JSONSchemaMakerExtendedVocabulary().json_type(node)
+    return str(t.get("type") == "decimal").lower()
+
+
 def decoder_elements(s: str) -> Any:
     import stingray.estruct as E
 
@@ -81,6 +89,13 @@ def check_one(ck: Check, s: str, dec: str, gen: tuple[str, Any]) -> None:
             ck.fail("one-interpretation", f"generator and decoder decompose {s!r} differently", inp)
         gnum = gen_numeric(s)
         dnum = dec.split()[-1]
+        try:
+            xnum = gen_numeric_ext(s)
+        except BaseException as ex:  # noqa: BLE001
+            xnum = err_enum(ex)
+        if xnum != gnum:
+            ck.fail("classification:extended-vocabulary", f"the extended-vocabulary generator classifies {s!r} numeric={xnum}, the standard one "
+                                                          f"numeric={gnum}", inp)
         if int(dec.split()[1]) == 0:
             # a picture of zero positions never reaches classification: sizing refuses it with ValueError
             from harness.decode_common import impl_calcsize
